@@ -88,7 +88,7 @@ class Check:
     # -- finishing ---------------------------------------------------------
     def finish(self):
         wall = time.time() - self.t0
-        for rule, n in self.floors.items():
+        for rule, n in ([] if self.violations or self.known_hits else self.floors.items()):
             got = self.rule_counts.get(rule, 0)
             if got < n:
                 raise ir.AnalysisBroken(
